@@ -140,6 +140,91 @@ def base_semantic(ctx):
     return None, res
 
 
+def pattern_rule(ctx, rule, only=None):
+    """Accepted language of each pattern-based stock datatype (restricted to
+    the names in `only`) == its reference language, under the matching
+    semantic RegularExpressionConversion.__call__ is shown to implement."""
+    run = ctx.run
+    m, P = ctx.model, ctx.program
+    mod, stock = stock_table(ctx)
+    # ------------------------------------------------------------------ R1
+    sem, info = base_semantic(ctx)
+    base_call = DT + ".RegularExpressionConversion.__call__"
+    if sem is None:
+        v = info["first"]
+        if v["verdict"] == "violation":
+            run.fail(rule, base_call, "match-then-compare",
+                     "RegularExpressionConversion.__call__ is neither "
+                     "'prefix match + whole-string comparison' nor fullmatch",
+                     loc=m.loc(m.fn(base_call), m.fn(base_call).node),
+                     witness=v["witness"])
+        else:
+            raise AnalysisError("cannot classify %s: %s" % (base_call, v))
+        sem = "first"
+    else:
+        run.ok(rule, base_call, "matching semantic = " + sem,
+               "decision table equals reference '%s' (%d rows)"
+               % (sem, info["rows"]), loc=m.loc(m.fn(base_call),
+                                                m.fn(base_call).node))
+    pattern_types = {}
+    for name, node in stock.items():
+        if isinstance(node, ast.Call):
+            cq = m.resolve(mod, node.func)
+            if cq in m.classes:
+                pat = pattern_of_class(ctx, cq)
+                if pat is not None:
+                    pattern_types[name] = (cq, pat)
+    run.analysed["pattern_types"] = {k: v[1] for k, v in pattern_types.items()}
+    for name in REFERENCE_LANG:
+        if only is not None and name not in only:
+            continue
+        if name not in pattern_types:
+            raise AnalysisError("anchor vanished: stock datatype %r is no "
+                                "longer pattern-based" % name)
+    langs = {}
+    for name, (cq, pat) in sorted(pattern_types.items()):
+        if only is not None and name not in only:
+            continue
+        refpat = REFERENCE_LANG.get(name)
+        if refpat is None:
+            run.note("pattern datatype %s has no reference language" % name)
+            continue
+        ab = S.Alphabet(S.charsets_of_pattern(pat)
+                        + S.charsets_of_pattern(refpat)
+                        + [S.cs_of("ABCDEFGHIJKLMNOPQRSTUVWXYZ"),
+                           ((0, 127),)])
+        live = S.lang_first(pat, ab) if sem == "first" else S.lang_full(pat,
+                                                                        ab)
+        ref = S.lang_full(refpat, ab)
+        langs[name] = (live, ref, ab, pat)
+        only_ref = (ref - live).witness()
+        only_live = (live - ref).witness()
+        where = cq
+        if only_ref is not None:
+            run.fail(rule, where, "rejects documented input",
+                     "%s: a string of the documented language is rejected: %r"
+                     % (name, only_ref), loc=m.loc(m.cls(cq).module,
+                                                   m.cls(cq).node),
+                     witness={"string": only_ref, "pattern": pat,
+                              "reference": refpat, "semantic": sem})
+        if only_live is not None:
+            run.fail(rule, where, "accepts undocumented input",
+                     "%s: a string outside the documented language is "
+                     "accepted: %r" % (name, only_live),
+                     loc=m.loc(m.cls(cq).module, m.cls(cq).node),
+                     witness={"string": only_live,
+                              "codepoints": [hex(ord(c)) for c in only_live],
+                              "pattern": pat, "reference": refpat,
+                              "semantic": sem})
+        if only_ref is None and only_live is None:
+            run.ok(rule, where, name,
+                   "L_%s(%r) == L(reference) over %d atoms, %d/%d states"
+                   % (sem, pat, ab.n, live.nstates, ref.nstates),
+                   loc=m.loc(m.cls(cq).module, m.cls(cq).node))
+
+    return langs, pattern_types
+
+
 def run(ctx):
     run = ctx.run
     m, P = ctx.model, ctx.program
@@ -178,75 +263,7 @@ def run(ctx):
     run.analysed["stock_keys"] = sorted(stock)
 
     # ------------------------------------------------------------------ R1
-    sem, info = base_semantic(ctx)
-    base_call = DT + ".RegularExpressionConversion.__call__"
-    if sem is None:
-        v = info["first"]
-        if v["verdict"] == "violation":
-            run.fail("C09.R1", base_call, "match-then-compare",
-                     "RegularExpressionConversion.__call__ is neither "
-                     "'prefix match + whole-string comparison' nor fullmatch",
-                     loc=m.loc(m.fn(base_call), m.fn(base_call).node),
-                     witness=v["witness"])
-        else:
-            raise AnalysisError("cannot classify %s: %s" % (base_call, v))
-        sem = "first"
-    else:
-        run.ok("C09.R1", base_call, "matching semantic = " + sem,
-               "decision table equals reference '%s' (%d rows)"
-               % (sem, info["rows"]), loc=m.loc(m.fn(base_call),
-                                                m.fn(base_call).node))
-    pattern_types = {}
-    for name, node in stock.items():
-        if isinstance(node, ast.Call):
-            cq = m.resolve(mod, node.func)
-            if cq in m.classes:
-                pat = pattern_of_class(ctx, cq)
-                if pat is not None:
-                    pattern_types[name] = (cq, pat)
-    run.analysed["pattern_types"] = {k: v[1] for k, v in pattern_types.items()}
-    for name in REFERENCE_LANG:
-        if name not in pattern_types:
-            raise AnalysisError("anchor vanished: stock datatype %r is no "
-                                "longer pattern-based" % name)
-    langs = {}
-    for name, (cq, pat) in sorted(pattern_types.items()):
-        refpat = REFERENCE_LANG.get(name)
-        if refpat is None:
-            run.note("pattern datatype %s has no reference language" % name)
-            continue
-        ab = S.Alphabet(S.charsets_of_pattern(pat)
-                        + S.charsets_of_pattern(refpat)
-                        + [S.cs_of("ABCDEFGHIJKLMNOPQRSTUVWXYZ"),
-                           ((0, 127),)])
-        live = S.lang_first(pat, ab) if sem == "first" else S.lang_full(pat,
-                                                                        ab)
-        ref = S.lang_full(refpat, ab)
-        langs[name] = (live, ref, ab, pat)
-        only_ref = (ref - live).witness()
-        only_live = (live - ref).witness()
-        where = cq
-        if only_ref is not None:
-            run.fail("C09.R1", where, "rejects documented input",
-                     "%s: a string of the documented language is rejected: %r"
-                     % (name, only_ref), loc=m.loc(m.cls(cq).module,
-                                                   m.cls(cq).node),
-                     witness={"string": only_ref, "pattern": pat,
-                              "reference": refpat, "semantic": sem})
-        if only_live is not None:
-            run.fail("C09.R1", where, "accepts undocumented input",
-                     "%s: a string outside the documented language is "
-                     "accepted: %r" % (name, only_live),
-                     loc=m.loc(m.cls(cq).module, m.cls(cq).node),
-                     witness={"string": only_live,
-                              "codepoints": [hex(ord(c)) for c in only_live],
-                              "pattern": pat, "reference": refpat,
-                              "semantic": sem})
-        if only_ref is None and only_live is None:
-            run.ok("C09.R1", where, name,
-                   "L_%s(%r) == L(reference) over %d atoms, %d/%d states"
-                   % (sem, pat, ab.n, live.nstates, ref.nstates),
-                   loc=m.loc(m.cls(cq).module, m.cls(cq).node))
+    langs, pattern_types = pattern_rule(ctx, "C09.R1")
 
     # wrappers of the pattern converters
     for cq, ref in ((DT + ".BasicKeyConversion", "basic_key_call"),
